@@ -222,17 +222,20 @@ def rd_part(res, tier, rnd, count, explicit=None):
                 ask(f"tree {r} {flatten(t)}", "tree-ok", name, dict(hist, root=r, tree=str(t)), "tree-invalid")
             # (d) smallest, through the real RuleDB method with the pruned dict injected
             if small:
-                db = make_db(r, False)
-                db._pruned_dict = pr
-                db.equivdb[r]
-                st = random.getstate()
-                random.seed(rnd.random())
-                try:
-                    node = db._get_smallest_node(0.0)
-                finally:
-                    random.setstate(st)
-                ask(f"tree {r} {flatten(node)}", "tree-ok", "smallest", dict(hist, root=r, tree=str(node)), "tree-invalid")
-                ask(f"min {r}", f"min {len(node)}", "smallest-size", dict(hist, root=r, tree=str(node)), "smallest-not-minimal")
+                # the bounded search starts from a random tree: several random seeds (its size decides which sizes are probed)
+                for _ in range(common.scale(tier, 5, 10)):
+                    db = make_db(r, False)
+                    db._pruned_dict = pr
+                    db.equivdb[r]
+                    sd = rnd.random()
+                    st = random.getstate()
+                    random.seed(sd)
+                    try:
+                        node = db._get_smallest_node(0.0)
+                    finally:
+                        random.setstate(st)
+                    ask(f"tree {r} {flatten(node)}", "tree-ok", "smallest", dict(hist, root=r, tree=str(node)), "tree-invalid")
+                    ask(f"min {r}", f"min {len(node)}", "smallest-size", dict(hist, root=r, tree=str(node), random_seed=sd), "smallest-not-minimal")
                 sizes = [len(t) for _, t in zip(range(200), ts.proof_tree_generator_dfs(pr, r))]
                 if len(sizes) < 200:
                     ask(f"sizes {r}", f"sizes {sizes}", "dfs generator (unbounded) sizes", dict(hist, root=r), None)
